@@ -1008,7 +1008,14 @@ impl Exec {
                 let n = op["n"].as_str().unwrap();
                 let h = self.wtables.get_mut(n).expect("table not open");
                 let r = h.op(&self.cx, op);
-                Self::with_r(op, r)
+                let mut evs = Self::with_r(op, r);
+                if matches!(e, "mins" | "mrem" | "mremall") {
+                    // len() after every multimap mutation (it is maintained incrementally)
+                    let lop = json!({"e": "len", "src": "w", "n": n});
+                    let lr = h.op(&self.cx, &lop);
+                    evs.extend(Self::with_r(&lop, lr));
+                }
+                evs
             }
             "get" | "len" | "edge" | "range" | "mget" | "mrange" | "ropen" => {
                 let n = op["n"].as_str().unwrap();
@@ -1212,6 +1219,12 @@ impl Exec {
         };
         ev["alloc"] = json!(allocated.iter().map(|(r, i)| pid(*r, *i)).collect::<Vec<u64>>());
         ev["region_lens"] = json!(acc.region_lens);
+        // per region: [highest free order of the allocator or -1, orders the region tracker marks full]
+        ev["regions"] = json!(acc
+            .region_tracker
+            .iter()
+            .map(|(hfo, full)| json!([hfo.map_or(-1, i64::from), full.iter().enumerate().filter(|(_, b)| **b).map(|(o, _)| o).collect::<Vec<usize>>()]))
+            .collect::<Vec<J>>());
         ev["data"] = json!(expand(&acc.data_tree));
         ev["sys"] = json!(expand(&acc.system_tree));
         ev["dfreed"] = json!(expand_map(&acc.data_freed));
